@@ -376,29 +376,22 @@ func (y *c39Sys) apply(op c39Op) {
 	case c39BLabels:
 		y.setCur(y.b.Labels(), c39FromMap(y.mb))
 	case c39BRangeMut:
-		// the callback mutates the builder; Range must present the labels as they were at the call
+		// the callback renames every label n to n+"2" (a Del and a Set per label, like a labeldrop
+		// plus labelmap); Range must present the labels as they were at the call
 		want := c39FromMap(y.mb)
 		var seen c39Set
 		y.b.Range(func(l Label) {
 			seen = append(seen, c39Pair{l.Name, l.Value})
-			switch l.Name {
-			case "a":
-				y.b.Del("b")
-			case "b":
-				y.b.Set("c", l.Value)
-			}
+			y.b.Del(l.Name)
+			y.b.Set(l.Name+"2", l.Value)
 		})
 		sort.Slice(seen, func(i, j int) bool { return seen[i].N < seen[j].N })
 		if !seen.equal(want) {
 			y.fail("builder-range-mismatch", "Builder.Range (callback mutating the builder) visited %s, builder holds %s", seen.key(nil), want.key(nil))
 		}
-		_, hasA := want.get("a")
-		vb, hasB := want.get("b")
-		if hasA {
-			delete(y.mb, "b")
-		}
-		if hasB {
-			y.mb["c"] = vb
+		y.mb = map[string]string{}
+		for _, p := range want {
+			y.mb[p.N+"2"] = p.V
 			y.mbAdded = true
 		}
 	case c39SReset:
@@ -470,7 +463,7 @@ func (y *c39Sys) apply(op c39Op) {
 	}
 }
 
-var c39Probe = []string{"a", "b", "c", "", "__name__", "aa", "B"}
+var c39Probe = []string{"a", "b", "a2", "", "__name__", "aa", "b2", "c"}
 
 func c39List(l Labels) c39Set {
 	var s c39Set
@@ -780,7 +773,14 @@ func c39Spaces(r *vx.Run) []c39Space {
 func TestVerifC39(t *testing.T) {
 	r := vx.Start(t, "C39", "exploration")
 	defer r.Finish()
-	refs := c39MakeRefs()
+	var refs []c39Pool
+	if p, stack := vx.Guard(func() { refs = c39MakeRefs() }); p != nil {
+		r.Violation("labels-panic", fmt.Sprintf("%s: panic %v while building the reference label sets with FromStrings\n%s", ImplementationName, p, stack), c39Replay{})
+		r.Count("evaluations", 1)
+		r.Set("rule", "setup failed")
+		r.Sample("setup failed")
+		return
+	}
 
 	if r.Replay != "" {
 		var rp c39Replay
